@@ -496,5 +496,14 @@ func (l *Listener) Dial() (client, server *End) {
 	return
 }
 
+// DialSynchronous is Dial for a connection whose both ends are synchronous
+// (SetSynchronous) from the very first octet.
+func (l *Listener) DialSynchronous() (client, server *End) {
+	client, server = Pair(l.hub)
+	client.synchronous, server.synchronous = true, true
+	l.ch <- server
+	return
+}
+
 // WrittenLocked is the number of octets this end has written. Hub must be locked.
 func (e *End) WrittenLocked() int64 { return e.out.written }
